@@ -29,6 +29,7 @@ template <class FL> static void free_list_variant(const Program& P) {
     fl.clear([](typename FL::node*) {}); }
   for (auto n : all) delete n; }
 typedef cds::intrusive::FreeList FL; typedef cds::intrusive::TaggedFreeList TFL; typedef cds::intrusive::CachedFreeList<FL, 8> CFL; typedef cds::intrusive::CachedFreeList<TFL, 8> CTFL;
+static const bool s_post_store = (vs::g_post_store_points = true);   // see vsched.h
 DRV_VARIANT(v_fl, "freelist") { free_list_variant<FL>(P); }
 DRV_VARIANT(v_tfl, "taggedfreelist") { free_list_variant<TFL>(P); }
 DRV_VARIANT(v_cfl, "cachedfreelist") { Smr<cds::gc::HP> smr(1, P.threads.size() + 1); free_list_variant<CFL>(P); }
